@@ -103,6 +103,9 @@ def recorded_handler(signum, frame):  # a pre-existing Python SIGINT handler
 recorded_handler.calls = 0
 
 
+IO = {"read": {}}  # bytes the library read, per descriptor (filled by the read hook of the virtual-time substitution)
+
+
 def one_run(case, res, sim):
     """enter the stack, run the body, leave; returns False if a violation ended the case"""
     import curtsies.input as ci
@@ -117,6 +120,9 @@ def one_run(case, res, sim):
     pty = Pty(h, w)
     os.set_blocking(pty.master, False)
     callbacks, inputs = [], []
+    truncated = {}
+    written = {"n": 0}
+    IO["read"].pop(pty.slave, None)
     init = case.get("init", {})
     wake_r = wake_w = None
     try:
@@ -223,10 +229,28 @@ def one_run(case, res, sim):
                         elif op["op"] == "request":
                             for inp in inputs:
                                 if op.get("data"):
+                                    payload = bytes.fromhex(op["data"])[:3000]
+                                    outstanding = written["n"] - IO["read"].get(pty.slave, 0)
+                                    if outstanding + len(payload) > 3500:
+                                        # the tty's input queue holds 4095 bytes; what does not fit trickles in later, so that a
+                                        # character may sit half in the queue when the library looks - not what this check is about
+                                        res.label("pty_write_skipped_queue_nearly_full")
+                                        payload = b""
                                     try:
-                                        os.write(pty.master, bytes.fromhex(op["data"])[:3000])
+                                        nw = os.write(pty.master, payload) if payload else 0
+                                        written["n"] += nw
                                     except BlockingIOError:
+                                        nw = 0
                                         res.label("pty_full_write_skipped")  # never block the single-threaded harness
+                                    if 0 < nw < len(payload):
+                                        # the tty's input queue filled up: the tail was not taken.  If that cut a multi-byte
+                                        # character, the stream now ends in bytes no decoder can make sense of - the harness's
+                                        # doing; a request rejecting them (ValueError) is then one more way of leaving by exception
+                                        res.label("pty_short_write")
+                                        try:
+                                            payload[:nw].decode("utf-8")
+                                        except UnicodeDecodeError:
+                                            truncated["char"] = True
                                 fl_pre = fcntl.fcntl(pty.slave, fcntl.F_GETFL)
                                 sigint_safe = init.get("handler", "default") != "dfl" or opts.get("sigint_event", False)
                                 if ex["mode"] == "sigint" and ex.get("after", 0) == k and on_main and sigint_safe:
@@ -267,8 +291,12 @@ def one_run(case, res, sim):
             except HarnessError:
                 raise
             except Exception as e:  # noqa
-                res.viol("context_or_body_raised", error=exc_str(e), where=tb_tail(e), case=case)
-                return False
+                if truncated.get("char") and isinstance(e, ValueError) and "identify key sequence" in str(e):
+                    left_by = "exception"
+                    res.label("left_by_rejecting_a_character_the_harness_cut")
+                else:
+                    res.viol("context_or_body_raised", error=exc_str(e), where=tb_tail(e), case=case)
+                    return False
             res.label("left_by_" + left_by)
             if left_by != "normal":
                 res.nontrivial = True
@@ -352,8 +380,11 @@ def _run_case(case):
         res.nontrivial = True
     repeat = case.get("repeat", 1)
 
+    def count_read(fd, n):
+        IO["read"][fd] = IO["read"].get(fd, 0) + n
+
     def work():
-        with Patched(sim):
+        with Patched(sim, count_read):
             # warm-up run so that lazily created descriptors (terminfo etc.) do not count as leaks
             fds0 = None
             for i in range(repeat + 1):
